@@ -13,6 +13,8 @@ pub struct Session {
     pub touched: Vec<String>,
 }
 
+#[allow(dead_code)]
+fn _x() {}
 fn oct(a: &str) -> Option<u32> {
     u32::from_str_radix(a, 8).ok()
 }
